@@ -171,7 +171,9 @@ _GEN = R.ReplayGen(clear_p=0.04, kinds=("defer", "defer", "defer", "pause", "sus
 def gen(rng):
     if rng.random() < 0.85:
         return _GEN(rng)
-    return E.gen_scenario(rng, dense=rng.random() < 0.5)
+    sc = E.gen_scenario(rng, dense=rng.random() < 0.5)
+    sc["decisions"] = list(sc["decisions"]) + ["halt"]   # bounds the harness loop should resume() itself fail
+    return sc
 
 
 def run(ctx, model=True):
